@@ -134,4 +134,40 @@ theorem prologue_ok {g : TGraph} {n : String} (hn : n ∈ verts g) :
     | cons => rfl
   simp [extract, findNode, hne, hn]
 
+/-! ### the class gate of the derived helpers -/
+
+theorem classGate_ok_iff {g : TGraph} {n : String} {adm : List String} :
+    classGate g n adm = .ok () ↔ ∃ c, classOf g n = some c ∧ c ∈ adm := by
+  unfold classGate labelsOf
+  cases hc : classOf g n with
+  | none => simp [bind, Except.bind]
+  | some c =>
+    simp only [bind, Except.bind]
+    by_cases hm : c ∈ adm <;> simp [hm]
+
+theorem classGate_cases (g : TGraph) (n : String) (adm : List String) :
+    classGate g n adm = .ok () ∨ classGate g n adm = .error .query := by
+  unfold classGate labelsOf
+  cases classOf g n with
+  | none => right; rfl
+  | some c =>
+    simp only [bind, Except.bind]
+    split
+    · right; rfl
+    · left; rfl
+
+/-- a gated helper answers exactly when the node's class is admitted, and then with the answer of the underlying query;
+    otherwise it raises the query exception -/
+theorem gated_ok_iff {α} {g : TGraph} {n : String} {adm : List String} {f : Except Err α} {r : α} :
+    (do classGate g n adm; f) = Except.ok r ↔ (∃ c, classOf g n = some c ∧ c ∈ adm) ∧ f = .ok r := by
+  rw [← classGate_ok_iff]
+  rcases classGate_cases g n adm with h | h <;> simp [h, bind, Except.bind]
+
+theorem gated_outside {α} {g : TGraph} {n : String} {adm : List String} {f : Except Err α}
+    (h : ¬ ∃ c, classOf g n = some c ∧ c ∈ adm) : (do classGate g n adm; f) = Except.error Err.query := by
+  rw [← classGate_ok_iff] at h
+  rcases classGate_cases g n adm with h' | h'
+  · exact absurd h' h
+  · simp [h', bind, Except.bind]
+
 end FimVerif.Query
